@@ -50,26 +50,28 @@ impl<C: Cursor> Cursor for ConcatenatingCursor<C> {
         let mut left = 0usize;
         let mut right = self.cursors.len() - 1;
 
+        // Find the first cursor whose last key is at or after the key.
         while left < right {
-            let mut mid = (left + right) / 2;
+            let probe = (left + right) / 2;
+            let mut mid = probe;
             self.reposition(mid)?;
             self.cursors[self.position].seek_to_last()?;
             self.cursors[self.position].prev()?;
+            // Skip over empty cursors to find one that can be compared.
             while mid > left && self.cursors[self.position].key().is_none() {
                 mid -= 1;
                 self.reposition(mid)?;
                 self.cursors[self.position].seek_to_last()?;
                 self.cursors[self.position].prev()?;
             }
-            if mid == left {
-                break;
-            }
-            // SAFETY(rescrv):  We have a loop invariant above that goes until is_some or the
-            // conditional right above us.
-            if self.cursors[self.position].key().unwrap() >= kref {
-                right = mid;
-            } else {
-                left = mid + 1;
+            match self.cursors[self.position].key() {
+                Some(last) if last >= kref => {
+                    right = mid;
+                }
+                // Everything in [mid, probe] sorts before the key, or [left, probe] is empty.
+                _ => {
+                    left = probe + 1;
+                }
             }
         }
         self.reposition(left)?;
@@ -92,7 +94,7 @@ impl<C: Cursor> Cursor for ConcatenatingCursor<C> {
     fn next(&mut self) -> Result<(), SError> {
         loop {
             self.cursors[self.position].next()?;
-            if self.cursors[self.position].value().is_none()
+            if self.cursors[self.position].key().is_none()
                 && self.position + 1 < self.cursors.len()
             {
                 self.reposition(self.position + 1)?;
